@@ -186,7 +186,8 @@ def part_abs_model(ctx):
                 f"INVARIANTS {' '.join(ABS_INVS)} UsersWellFormed\nCHECK_DEADLOCK FALSE\n")
     res = vp.tlc(d, "MC_ServiceAbs", workers=4, timeout=1200, libs=["service"])
     vp.tlc_require_ok(res, "MC_ServiceAbs (property layer)")
-    vp.check_action_coverage(res, ["DoCall", "DoLin", "DoRet"], "MC_ServiceAbs")
+    vp.check_action_coverage(res, ["DoCall", "DoLin", "DoRet", "DoRetEnv", "DoCrash", "DoLinCrashed", "DoReap", "DoWithdraw"],
+                             "MC_ServiceAbs")
     out = [("tlc", (f"ServiceAbs[2 threads, {calls} calls]", res, True))]
     if ctx.quick:
         return out
@@ -286,7 +287,7 @@ def order_parameters(ctx, steps, hasres):
     return {"wbu": wbu}, drift
 
 
-def part_lifecycle(ctx, name, threads, maxops, budget, hasres, ooc, live):
+def part_lifecycle(ctx, name, threads, maxops, budget, hasres, ooc, live, faults=0, crashes=0):
     pat = "bb" if hasres else "ev"
     steps = extract_step_order(ctx, pat)
     params, drift, out0 = {}, [], []
@@ -299,10 +300,11 @@ def part_lifecycle(ctx, name, threads, maxops, budget, hasres, ooc, live):
         for dmsg in drift:
             print(f"DRIFT: {pat}: {dmsg}")
             out0.append(("note", f"DRIFT {pat}: {dmsg}"))
-    d = lifecycle_instance(ctx, name, threads, maxops, budget, hasres, ooc, live=live, **params)
+    d = lifecycle_instance(ctx, name, threads, maxops, budget, hasres, ooc, live=live, faults=faults, crashes=crashes, **params)
     res = vp.tlc(d, name, workers=4 if ctx.quick else 8, timeout=3000, libs=["service"])
     label = (f"ServiceLifecycle[{threads} nodes x {maxops} calls, budget {budget}, resources={hasres}, ooc={ooc}"
-             + (f", extracted {params}" if params else "") + "]")
+             + (f", {faults} failing system call" if faults else "") + (f", {crashes} crash" if crashes else "")
+             + (", Termination" if live else "") + (f", extracted {params}" if params else "") + "]")
     if res.timed_out:
         raise vp.ToolError(f"TLC timed out on {name}")
     if res.violated and params and not params.get("wbu", True):
@@ -322,13 +324,20 @@ def part_lifecycle(ctx, name, threads, maxops, budget, hasres, ooc, live):
         raise vp.ToolError(f"TLC failed on {name}: {res.error}\n{res.output[-3000:]}")
     need = ["CAvail", "CLock", "CUnlock", "CDyn", "CReg", "CFin", "OAvail", "ODyn", "ORegister",
             "DDereg", "DDyn", "DStatic", "Return"]
+    if faults:
+        need += ["CTagFail", "CLockFail", "CUnlockFail", "CResFail", "CDynFail", "OAvailFail", "OTagFail", "OResFail",
+                 "ODynFail"]
+    if crashes:
+        need += ["Crash_"]
     vp.check_action_coverage(res, need, name)
     return out0 + [("tlc", (label, res, True))]
 
 
-def part_must_fail(ctx, name, kw):
-    d = lifecycle_instance(ctx, name, 2, 3, 1, False, False, **kw)
+def part_must_fail(ctx, name, kw, maxops=3, budget=1):
+    d = lifecycle_instance(ctx, name, 2, maxops, budget, False, False, **kw)
     res = vp.tlc(d, name, workers=4, timeout=1800, libs=["service"], coverage=False)
+    if not res.violated and res.error and "Temporal property" in res.error:
+        res.violated = "Termination"
     return [("mustfail", (name, res))]
 
 
@@ -668,6 +677,8 @@ def manifest_of(first, before=None):
     observation what it shows MORE than the observation `before` the faulty call"""
     if not isinstance(first, dict):
         return "?"
+    if first.get("hang"):
+        return "does_exist/list->Hang"
     if first.get("k") in ("obs", "end"):
         b = before or {}
         parts = [n for n, k in (("exists", "exist"), ("listed", "listed"), ("files", "files"), ("shm", "shm"))
@@ -794,6 +805,8 @@ def describe_fault(run, rel, v):
             if flt else f"{h.get('pat')}/fault: {op} (no fault injected): history not explainable at event #{rel} ({man})")
     if v.invariant is not None:
         what = f"{h.get('pat')}/fault: {op}: invariant {v.invariant} fails on the explained history"
+    if first.get("hang") or first.get("r") == "Hang":
+        what += f" - a call does not terminate: {first.get('hang') or first.get('why')}"
     return vp.Violation(what, replay={"kind": "trace", "mode": "fault", "pat": h.get("pat"), "first_unexplained": v.record,
                                       "position_in_run": rel, "invariant": v.invariant, "history_before": fault_history(run),
                                       "run": run, "reset": h},
@@ -815,17 +828,26 @@ def part_fault(ctx):
         for attempt in range(60):
             t = ctx.path("traces", f"fault-{pat}.{attempt}.ndjson")
             args = ["fault", "--pat", pat, "--root", root, "--out", t, "--sample", sample, "--errnos", errnos,
-                    "--timeout", 150, "--tag", TAG]
+                    "--timeout", FAULT_TIMEOUT_MS, "--tag", TAG]
             if resume:
                 args += ["--resume", resume]
             if skip:
                 args += ["--skip", ",".join(map(str, skip))]
             exe = os.path.join(vp.TARGET_BIN, "drv-service")
-            try:
-                r = subprocess.run([exe] + [str(a) for a in args], stdout=subprocess.PIPE, stderr=subprocess.PIPE, text=True,
-                                   timeout=3000, env=shim_env(ctx, [root + "/", "/dev/shm/c6" + TAG], ctx.seed))
-            except subprocess.TimeoutExpired as ex:
-                raise vp.ToolError(f"fault enumeration for {pat} timed out") from ex
+            slog, sout, serr = (ctx.path("fault", f"{pat}.{attempt}.{x}") for x in ("syslog", "stdout", "stderr"))
+            with open(sout, "w") as fo, open(serr, "w") as fe:
+                proc = subprocess.Popen([exe] + [str(a) for a in args], stdout=fo, stderr=fe,
+                                        env=shim_env(ctx, [root + "/", "/dev/shm/c6" + TAG], ctx.seed,
+                                                     IOX2_VERIF_SYSLOG=slog, IOX2_VERIF_SYSLOG_MAX=1 << 20))
+                hang = watch_call(proc, slog, t, FAULT_TIMEOUT_MS)
+                if hang:
+                    proc.kill()
+                proc.wait()
+
+            class r:
+                returncode, stdout, stderr = proc.returncode, open(sout).read(), open(serr, errors="replace").read()
+            if os.path.exists(slog):
+                os.remove(slog)
             if r.returncode == 2:
                 raise vp.ToolError(f"fault driver reported a harness problem ({pat}):\n{r.stderr[-2000:]}")
             recs = vp.read_ndjson(t) if os.path.exists(t) else []
@@ -833,6 +855,10 @@ def part_fault(ctx):
             if r.returncode == 0:
                 summaries.append(vp.last_json_line(r.stdout))
                 break
+            if hang and recs and recs[-1].get("k") not in ("call", "fault"):
+                # the quiescent observation (Service::does_exist / Service::list) after the last call never returned
+                recs.append({"k": "obs", "exist": -2, "listed": -2, "files": 0, "shm": 0, "panics": 0, "tg": [], "dirs": 0,
+                             "crashed": 0, "g": recs[-1].get("g", 0) + 1, "hang": hang})
             # the process died inside the code under test (panic: exit 4 with a summary; abort / signal: nothing):
             # the pending call gets the result the history shows - none - and the enumeration goes on behind it
             last_reset = next((e for e in reversed(recs) if e.get("k") == "reset"), None)
@@ -842,8 +868,8 @@ def part_fault(ctx):
                 summaries.append(vp.last_json_line(r.stdout))
             if recs and recs[-1].get("k") in ("call", "fault"):
                 c = next(e for e in reversed(recs) if e.get("k") == "call")
-                recs.append({"k": "ret", "t": c["t"], "a": c["a"], "r": "Abort", "id": 0, "s": {}, "v": 0, "h": c["h"],
-                             "f": 1, "g": c.get("g", 0) + 1, "exit": r.returncode})
+                recs.append({"k": "ret", "t": c["t"], "a": c["a"], "r": "Hang" if hang else "Abort", "id": 0, "s": {}, "v": 0,
+                             "h": c["h"], "f": 1, "g": c.get("g", 0) + 1, "exit": r.returncode, "why": hang or ""})
             if last_reset["pos"] == 0:
                 skip.append(last_reset["si"])
                 resume = f"{last_reset['si'] + 1},0,-1"
@@ -894,6 +920,7 @@ def part_fault(ctx):
 MIN_TICK_MS = 1          # the shortest sleep of one iteration of a bounded wait in the code (AdaptiveWait FixedTicks(1 ms) in
                          # cal dynamic_storage; the builders use config::IO_TICK_TIME = 25 ms)
 OPENER_TIMEOUT_MS = 100
+FAULT_TIMEOUT_MS = 150
 HANG_BOUND_S = max(20.0, 30 * OPENER_TIMEOUT_MS / 1000.0)
 HANG_HARD_LIMIT_S = 400.0
 
@@ -924,31 +951,40 @@ def loop_sample(syslog):
     return sig, max(r["i"] for r in recs)
 
 
-def watch_call(proc, syslog):
-    """Waits for the process. A HANG is declared only on proof: the process is still running after HANG_BOUND_S
-    (>= 30 x the creation timeout, >= 20 s) AND samples of its own syscall log taken >= 2 s apart show the SAME
-    retry loop still growing AND the loop made more iterations between the samples than a wait bounded by the
-    creation timeout can make in total (it sleeps IO_TICK_MS per iteration) - machine load cannot produce that.
+def watch_call(proc, syslog, progress, timeout_ms):
+    """Waits for the process. A HANG is declared only on proof: the process is still running and has not recorded
+    anything new in `progress` (its event file) for HANG_BOUND_S (>= 30 x the creation timeout, >= 20 s) AND samples
+    of its own syscall log taken >= 2 s apart show the SAME retry loop still growing AND the loop made more
+    iterations between the samples than a wait bounded by the creation timeout can make in total (it sleeps at
+    least MIN_TICK_MS per iteration) - machine load cannot produce that.
     Returns None (finished) or the description of the loop."""
-    t0, first = time.time(), None
+    bound = max(HANG_BOUND_S, 30 * timeout_ms / 1000.0)
+    t0, first, last_size, last_change = time.time(), None, -1, time.time()
     while True:
         if proc.poll() is not None:
             return None
-        el = time.time() - t0
-        time.sleep(0.05 if el < 3 else 0.5)
-        if el >= HANG_BOUND_S:
+        now = time.time()
+        time.sleep(0.05 if now - t0 < 3 else 0.5)
+        try:
+            size = os.path.getsize(progress)
+        except OSError:
+            size = 0
+        if size != last_size:
+            last_size, last_change, first = size, now, None
+        quiet = now - last_change
+        if quiet >= bound:
             sp = loop_sample(syslog)
             if sp is None or (first and first[0] != sp[0]):
                 first = None
             if sp is not None:
                 if first is None:
-                    first = (sp[0], sp[1], el)
-                elif el - first[2] >= 2.0 and sp[1] - first[1] >= 10 * len(sp[0]) * (OPENER_TIMEOUT_MS // MIN_TICK_MS + 2):
+                    first = (sp[0], sp[1], now)
+                elif now - first[2] >= 2.0 and sp[1] - first[1] >= 10 * len(sp[0]) * (timeout_ms // MIN_TICK_MS + 2):
                     objs = sorted({o for _, o in sp[0]})
-                    return (f"still running after {el:.0f}s (creation timeout {OPENER_TIMEOUT_MS} ms); its own syscall log shows "
-                            f"the same retry loop over {objs[:4]} growing by {sp[1] - first[1]} calls in {el - first[2]:.1f}s")
-        if el > HANG_HARD_LIMIT_S:
-            raise vp.ToolError(f"an opener process neither finished nor could be proven to hang within {HANG_HARD_LIMIT_S}s")
+                    return (f"no result for {quiet:.0f}s (creation timeout {timeout_ms} ms); the process' own syscall log shows the "
+                            f"same retry loop over {objs[:4]} growing by {sp[1] - first[1]} calls in {now - first[2]:.1f}s")
+        if quiet > HANG_HARD_LIMIT_S:
+            raise vp.ToolError(f"a driver process neither made progress nor could be proven to hang within {HANG_HARD_LIMIT_S}s")
 
 
 def map_uids(events):
@@ -1007,7 +1043,7 @@ def crash_scenario(ctx, pat, op, n):
         p = subprocess.Popen([exe, "opener", "--events", oev, "--timeout", str(OPENER_TIMEOUT_MS), "--crashed",
                               "1" if dead else "0"] + common, stdout=subprocess.DEVNULL, stderr=ef,
                              env=shim_env(ctx, roots, ctx.seed, IOX2_VERIF_SYSLOG=olog, IOX2_VERIF_SYSLOG_MAX=1 << 20))
-        hang = watch_call(p, olog)
+        hang = watch_call(p, olog, oev, OPENER_TIMEOUT_MS)
         if hang:
             p.kill()
         p.wait()
@@ -1141,6 +1177,47 @@ def selftest(ctx):
         if v.accepted:
             raise vp.ToolError(f"selftest: a history with a corrupted {what} was accepted - the trace binding is vacuous")
         done.append(what)
+    # fault / crash histories (validated run by run with ServiceAbsRuns.tla): one corrupted field -> that run is rejected
+    def first_run(path, pred):
+        return next((r for r in vp.split_runs(vp.read_ndjson(path)) if pred(r)), None)
+
+    def must_reject(what, run):
+        if run is None:
+            raise vp.ToolError(f"selftest: no recorded history to corrupt for '{what}'")
+        res = validate_runs(ctx, f"selftest-{what}", [run], lambda r, rel, v: vp.Violation("selftest", signature="selftest"))
+        if not any(k == "violation" for k, _ in res):
+            raise vp.ToolError(f"selftest: a history with a corrupted {what} was accepted - the trace binding is vacuous")
+        done.append(what)
+
+    fp, cp = ctx.path("traces", "fault-ps-all.0.ndjson"), ctx.path("traces", "crash-ps.0.ndjson")
+    if os.path.exists(fp):
+        good = lambda r: any(e.get("k") == "ret" and e.get("f") and e["r"] != "Ok" for e in r) and \
+            not any(k == "violation" for k, _ in validate_runs(ctx, "selftest-probe", [r], lambda *_: vp.Violation("x")))
+        run = first_run(fp, good)
+        if run is not None:
+            bad = [dict(e) for e in run]
+            next(e for e in bad if e.get("k") == "ret" and e.get("f"))["f"] = 0       # the failure is not excused by a fault
+            must_reject("fault-flag", bad)
+            bad = [dict(e) for e in run]
+            o = next(e for e in bad if e.get("k") == "obs")
+            o["tg"] = sorted(set(o["tg"]) | {2})                                           # a tag nobody is entitled to
+            must_reject("service-tag", bad)
+            bad = [dict(e) for e in run]
+            i = next(i for i, e in enumerate(bad) if e.get("k") == "ret" and e.get("f"))
+            nxt = next(e for e in bad[i:] if e.get("k") == "obs")
+            nxt["files"] = nxt["files"] + 1                                                # something left by the failed call
+            must_reject("leftover-after-failed-call", bad)
+        else:
+            raise vp.ToolError("selftest: no accepted fault history with a failed call")
+    if os.path.exists(cp):
+        run = first_run(cp, lambda r: any(e.get("k") == "crash" for e in r) and any(e.get("r") == "HangsInCreation" for e in r)
+                        and not any(e.get("r") in ("Hang", "Abort") for e in r))
+        if run is not None:
+            bad = [dict(e) for e in run]
+            next(e for e in bad if e.get("r") == "HangsInCreation")["r"] = "Hang"          # a call that never returned
+            must_reject("termination", bad)
+            bad = [dict(e) for e in run if e.get("k") != "crash"]                          # without the crash nothing excuses the errors
+            must_reject("crash-record", bad)
     ctx.note(f"selftest: corrupted histories rejected ({', '.join(done)})")
 
 
@@ -1174,8 +1251,16 @@ def run(ctx):
         jobs.append(ex.submit(guarded(part_crash, "crash"), ctx))
         if quick:
             jobs.append(ex.submit(part_lifecycle, ctx, "LC_2x2", 2, 2, 1, False, True, False))
-            jobs.append(ex.submit(part_lifecycle, ctx, "LC_2x2_res", 2, 2, 1, True, False, True))
+            jobs.append(ex.submit(part_lifecycle, ctx, "LC_2x2_res_fault", 2, 2, 0, True, False, True, 1, 0))
+            jobs.append(ex.submit(part_lifecycle, ctx, "LC_2x2_res_crash", 2, 2, 1, True, False, True, 0, 1))
         else:
+            jobs.append(ex.submit(part_lifecycle, ctx, "LC_2x2_ooc_fault", 2, 2, 1, False, True, False, 1, 0))
+            jobs.append(ex.submit(part_lifecycle, ctx, "LC_2x2_res_fault", 2, 2, 1, True, False, True, 1, 0))
+            jobs.append(ex.submit(part_lifecycle, ctx, "LC_2x2_res_crash", 2, 2, 1, True, False, True, 0, 1))
+            jobs.append(ex.submit(part_lifecycle, ctx, "LC_2x2_ooc_crash", 2, 2, 1, False, True, True, 0, 1))
+            jobs.append(ex.submit(part_must_fail, ctx, "MF_static_released_early", {"rsl": False, "faults": 1}, 2, 0))
+            jobs.append(ex.submit(part_must_fail, ctx, "MF_tag_released_at_once", {"tod": False, "faults": 1}, 2, 0))
+            jobs.append(ex.submit(part_must_fail, ctx, "MF_unbounded_dyn_wait", {"bdw": False, "crashes": 1, "live": True}, 2, 1))
             jobs.append(ex.submit(part_lifecycle, ctx, "LC_2x3", 2, 3, 1, False, True, True))
             jobs.append(ex.submit(part_lifecycle, ctx, "LC_2x3_res", 2, 3, 2, True, False, False))
             jobs.append(ex.submit(part_lifecycle, ctx, "LC_3x2", 3, 2, 0, False, False, False))
